@@ -361,6 +361,15 @@ SendToSubscriber:
 			return
 		}
 
+		// a subscriber that is already closing must not be handed another message:
+		// the previous one may have been given up unsettled when closing started
+		select {
+		case <-s.closing:
+			s.logger.Trace("Closing, message discarded", logFields)
+			return
+		default:
+		}
+
 		select {
 		case s.outputChannel <- msgToSend:
 			s.logger.Trace("Sent message to subscriber", logFields)
